@@ -65,7 +65,8 @@ struct Task {
     void* (*fn)(void*) = nullptr;
     void* arg = nullptr;
     void* ret = nullptr;
-    bool detached = false;
+    bool detached = false, joined = false;
+    pid_t tid = 0;
     const volatile void* spin_addr = nullptr;
     uint64_t spin_val = 0;
     int spin_cnt = 0;
@@ -594,7 +595,10 @@ static void* reaper_main(void*) {
         while (__atomic_load_n(&G.reap_fut, __ATOMIC_ACQUIRE) == 0) fwait(&G.reap_fut, 0);
         __atomic_store_n(&G.reap_fut, 0, __ATOMIC_RELAXED);
         Task* d = G.reap_task; Task* s = G.reap_succ;
-        real_pthread_join(d->th, nullptr);
+        // wait until the kernel has really retired the thread (its TLS / pthread-key destructors are over) WITHOUT
+        // joining it: a joinable thread's pthread_t must stay reserved until the program itself joins it
+        pid_t pid = getpid();
+        while (syscall(SYS_tgkill, pid, d->tid, 0) == 0) real_sched_yield();
         G.cur = s;
         __atomic_store_n(&s->fut, 1, __ATOMIC_RELEASE);
         fwake(&s->fut);
@@ -625,6 +629,7 @@ void start() {
 static void* trampoline(void* a) {
     Task* t = (Task*)a;
     self = t;
+    t->tid = (pid_t)syscall(SYS_gettid);
     park(t);
     void* r = t->fn(t->arg);
     // exit protocol: keep the baton until the kernel has really retired this thread
@@ -643,7 +648,8 @@ static void* trampoline(void* a) {
 }
 
 static Task* find_task(pthread_t th) {
-    for (int i = 0; i < G.ntasks; i++) if (pthread_equal(G.tasks[i]->th, th)) return G.tasks[i];
+    // pthread_t values are reused once a thread has been reaped: the most recent task with this id is the live one
+    for (int i = G.ntasks - 1; i >= 0; i--) if (!G.tasks[i]->joined && pthread_equal(G.tasks[i]->th, th)) return G.tasks[i];
     return nullptr;
 }
 
@@ -710,6 +716,8 @@ int pthread_join(pthread_t th, void** ret) {
     if (!managed(t) || !d) return real_pthread_join(th, ret);
     while (d->st != T_DEAD) block_on(d, 0);
     if (ret) *ret = d->ret;
+    d->joined = true;
+    real_pthread_join(th, nullptr);      // already dead: returns at once, releases the pthread_t
     return 0;
 }
 
@@ -717,8 +725,8 @@ int pthread_detach(pthread_t th) {
     init_reals();
     Task* d = G.active ? find_task(th) : nullptr;
     if (!d) return real_pthread_detach(th);
-    d->detached = true;
-    return 0;
+    d->detached = true; d->joined = true;
+    return real_pthread_detach(th);
 }
 
 // --- mutex: state kept in the pthread_mutex_t itself (lock word, owner, count) -----
